@@ -1,3 +1,211 @@
-import NmVerif.Basic
+import NmVerif.Index.Checked
+import Mathlib.Tactic.Ring
+/-
+  C15 — Invalid arguments are reported as 'Nothing', never as garbage or a crash.
+-/
 namespace NmVerif.Props.C15
+open NmVerif NmVerif.Checked
+
+/-- an empty optional fed into any further stage stays empty, at any depth: the pipeline has a value
+    iff NO stage failed -/
+theorem nothing_propagates (p : Pipe) : p.denote = none ↔ p.hasFailedStage := by
+  induction p with
+  | leaf s => simp [Pipe.denote, Pipe.hasFailedStage]
+  | nothing => simp [Pipe.denote, Pipe.hasFailedStage]
+  | unary f x ih =>
+    simp only [Pipe.denote, Pipe.hasFailedStage]
+    cases hx : x.denote with
+    | none => simp [ih.1 hx]
+    | some s =>
+      have : ¬ x.hasFailedStage := fun h => by rw [ih.2 h] at hx; cases hx
+      simp [this]
+  | binary f x y ihx ihy =>
+    simp only [Pipe.denote, Pipe.hasFailedStage]
+    cases hx : x.denote with
+    | none => simp [ihx.1 hx]
+    | some a =>
+      have hnx : ¬ x.hasFailedStage := fun h => by rw [ihx.2 h] at hx; cases hx
+      cases hy : y.denote with
+      | none => simp [ihy.1 hy]
+      | some b =>
+        have hny : ¬ y.hasFailedStage := fun h => by rw [ihy.2 h] at hy; cases hy
+        simp [hnx, hny]
+
+/-- normalize_axis reports Nothing exactly for axes outside [-ndim, ndim) -/
+theorem normalizeAxis_isSome_iff (ndim : Nat) (a : Int) :
+    (normalizeAxis ndim a).isSome ↔ (-(ndim : Int) ≤ a ∧ a < ndim) := by
+  unfold normalizeAxis; split <;> simp_all
+
+theorem normalizeAxis_lt (ndim : Nat) (a : Int) (k : Nat) (h : normalizeAxis ndim a = some k) : k < ndim := by
+  unfold normalizeAxis at h
+  split at h
+  · simp only [Option.some.injEq] at h
+    subst h
+    split <;> omega
+  · cases h
+
+theorem prodOthers_pos (dst : List Int) (h : ∀ d ∈ dst, d = -1 ∨ 0 < d) : 0 < prodOthers dst := by
+  induction dst with
+  | nil => simp [prodOthers]
+  | cons x xs ih =>
+    have hxs : ∀ d ∈ xs, d = -1 ∨ 0 < d := fun d hd => h d (by simp [hd])
+    unfold prodOthers
+    split
+    · exact ih hxs
+    · rename_i hx
+      rcases h x (by simp) with h1 | h1
+      · exact absurd h1 hx
+      · exact Int.mul_pos h1 (ih hxs)
+
+theorem any_bad_iff (dst : List Int) : dst.any (fun d => d ≠ -1 ∧ d ≤ 0) = true ↔ ¬ ∀ d ∈ dst, d = -1 ∨ 0 < d := by
+  simp only [List.any_eq_true, decide_eq_true_eq]
+  constructor
+  · rintro ⟨d, hd, h1, h2⟩ hall
+    rcases hall d hd with h | h <;> omega
+  · intro h
+    apply Classical.byContradiction
+    intro hne
+    apply h
+    intro d hd
+    by_cases h1 : d = -1
+    · exact Or.inl h1
+    · right
+      apply Classical.byContradiction
+      intro h2
+      exact hne ⟨d, hd, h1, by omega⟩
+
+/-- the five checks, in the order the code performs them -/
+theorem shapeReshape_isSome (src : Shape) (dst : List Int) :
+    (shapeReshape src dst).isSome ↔
+      (¬ countMinusOne dst > 1 ∧ ¬ dst.any (fun d => d ≠ -1 ∧ d ≤ 0) = true ∧
+       ¬ (countMinusOne dst = 0 ∧ prod src ≠ dstNumel dst) ∧ dstNumel dst ≠ 0 ∧ prod src % dstNumel dst = 0) := by
+  unfold shapeReshape
+  by_cases h1 : countMinusOne dst > 1
+  · rw [if_pos h1]; simp only [Option.isSome_none]; constructor
+    · intro h; cases h
+    · intro h; exact absurd h1 h.1
+  · rw [if_neg h1]
+    by_cases h2 : dst.any (fun d => d ≠ -1 ∧ d ≤ 0) = true
+    · rw [if_pos h2]; simp only [Option.isSome_none]; constructor
+      · intro h; cases h
+      · intro h; exact absurd h2 h.2.1
+    · rw [if_neg h2]
+      by_cases h3 : countMinusOne dst = 0 ∧ prod src ≠ dstNumel dst
+      · rw [if_pos h3]; simp only [Option.isSome_none]; constructor
+        · intro h; cases h
+        · intro h; exact absurd h3 h.2.2.1
+      · rw [if_neg h3]
+        by_cases h4 : dstNumel dst = 0
+        · rw [if_pos h4]; simp only [Option.isSome_none]; constructor
+          · intro h; cases h
+          · intro h; exact absurd h4 h.2.2.2.1
+        · rw [if_neg h4]
+          by_cases h5 : prod src % dstNumel dst ≠ 0
+          · rw [if_pos h5]; simp only [Option.isSome_none]; constructor
+            · intro h; cases h
+            · intro h; exact absurd h.2.2.2.2 h5
+          · rw [if_neg h5]; simp only [Option.isSome_some, true_iff]
+            exact ⟨h1, h2, h3, h4, by omega⟩
+
+/-- reshape reports Nothing EXACTLY when the arguments are invalid (more than one -1, a zero or negative extent,
+    a mismatching element count, a non-dividing inferred extent) — for every source shape and every non-empty target -/
+theorem shapeReshape_isSome_iff (src : Shape) (dst : List Int) (hne : dst ≠ []) :
+    (shapeReshape src dst).isSome ↔ ValidReshape src dst := by
+  rw [shapeReshape_isSome]
+  have hemp : dst.isEmpty = false := by cases dst <;> simp_all
+  have hdn : dstNumel dst = (prodOthers dst).toNat := by simp [dstNumel, hemp]
+  rw [hdn]
+  unfold ValidReshape
+  constructor
+  · rintro ⟨h1, h2, h3, h4, h5⟩
+    have hall : ∀ d ∈ dst, d = -1 ∨ 0 < d := by
+      apply Classical.byContradiction; intro h; exact h2 ((any_bad_iff dst).2 h)
+    have hpo := prodOthers_pos dst hall
+    have hcast : ((prodOthers dst).toNat : Int) = prodOthers dst := Int.toNat_of_nonneg (by omega)
+    refine ⟨by omega, hall, ?_, ?_⟩
+    · intro hc0
+      have : prod src = (prodOthers dst).toNat := by
+        apply Classical.byContradiction; intro hn; exact h3 ⟨hc0, hn⟩
+      rw [this, hcast]
+    · intro _
+      rw [← hcast, Int.natCast_dvd_natCast]
+      exact Nat.dvd_of_mod_eq_zero h5
+  · rintro ⟨h1, hall, h3, h4⟩
+    have hpo := prodOthers_pos dst hall
+    have hcast : ((prodOthers dst).toNat : Int) = prodOthers dst := Int.toNat_of_nonneg (by omega)
+    have hbad : ¬ dst.any (fun d => d ≠ -1 ∧ d ≤ 0) = true := fun h => (any_bad_iff dst).1 h hall
+    refine ⟨by omega, hbad, ?_, by omega, ?_⟩
+    · rintro ⟨hc0, hn⟩
+      apply hn
+      have := h3 hc0
+      omega
+    · by_cases hc0 : countMinusOne dst = 0
+      · have := h3 hc0
+        have : prod src = (prodOthers dst).toNat := by omega
+        rw [this]; exact Nat.mod_self _
+      · have hd := h4 (by omega)
+        rw [← hcast, Int.natCast_dvd_natCast] at hd
+        exact Nat.mod_eq_zero_of_dvd hd
+
+/-- an accepted reshape has positive extents and exactly the source's element count: never garbage -/
+theorem shapeReshape_sound (src : Shape) (hs : Pos src) (dst : List Int) (hne : dst ≠ []) (t : Shape)
+    (h : shapeReshape src dst = some t) : prod t = prod src ∧ Pos t ∧ t.length = dst.length := by
+  have hv := (shapeReshape_isSome_iff src dst hne).1 (by rw [h]; rfl)
+  have hchk := (shapeReshape_isSome src dst).1 (by rw [h]; rfl)
+  obtain ⟨c1, hall, hv0, hv1⟩ := hv
+  obtain ⟨h1, h2, h3, h4, h5⟩ := hchk
+  unfold shapeReshape at h
+  rw [if_neg h1, if_neg h2, if_neg h3, if_neg h4, if_neg (by omega)] at h
+  simp only [Option.some.injEq] at h
+  subst h
+  have hpo := prodOthers_pos dst hall
+  have hemp : dst.isEmpty = false := by cases dst <;> simp_all
+  have hdn : dstNumel dst = (prodOthers dst).toNat := by simp [dstNumel, hemp]
+  refine ⟨?_, ?_, by simp⟩
+  · -- product of the result = product of the source
+    have key : ∀ (l : List Int) (q : Nat), (∀ d ∈ l, d = -1 ∨ 0 < d) →
+        (prod (l.map (fun d => if d = -1 then q else d.toNat)) : Int) = prodOthers l * (q : Int) ^ countMinusOne l := by
+      intro l q hl
+      induction l with
+      | nil => simp [prod, prodOthers, countMinusOne]
+      | cons x xs ih =>
+        have hxs : ∀ d ∈ xs, d = -1 ∨ 0 < d := fun d hd => hl d (by simp [hd])
+        by_cases hx : x = -1
+        · simp only [hx, List.map_cons, if_true, prod, prodOthers, countMinusOne]
+          rw [Int.natCast_mul, ih hxs]; ring
+        · have hxp : 0 < x := by rcases hl x (by simp) with h | h; exact absurd h hx; exact h
+          simp only [hx, List.map_cons, if_false, prod, prodOthers, countMinusOne]
+          rw [Int.natCast_mul, ih hxs, Int.toNat_of_nonneg (by omega)]; ring
+    have hk := key dst (prod src / dstNumel dst) hall
+    have hcast : ((prodOthers dst).toNat : Int) = prodOthers dst := Int.toNat_of_nonneg (by omega)
+    by_cases hc0 : countMinusOne dst = 0
+    · rw [hc0] at hk
+      have e := hv0 hc0
+      have : (prod (dst.map (fun d => if d = -1 then prod src / dstNumel dst else d.toNat)) : Int) = (prod src : Int) := by
+        rw [hk, ← e]; simp
+      exact_mod_cast this
+    · have hc1 : countMinusOne dst = 1 := by omega
+      rw [hc1] at hk
+      have hmul : dstNumel dst * (prod src / dstNumel dst) = prod src := Nat.mul_div_cancel' (Nat.dvd_of_mod_eq_zero h5)
+      have : (prod (dst.map (fun d => if d = -1 then prod src / dstNumel dst else d.toNat)) : Int) = (prod src : Int) := by
+        rw [hk, ← hcast, ← hdn, pow_one, ← Int.natCast_mul, hmul]
+      exact_mod_cast this
+  · intro x hx
+    simp only [List.mem_map] at hx
+    obtain ⟨d, hd, rfl⟩ := hx
+    by_cases hd1 : d = -1
+    · simp only [hd1, if_true]
+      have : dstNumel dst ≤ prod src := Nat.le_of_dvd (prod_pos hs) (Nat.dvd_of_mod_eq_zero h5)
+      exact Nat.div_pos this (by omega)
+    · simp only [hd1, if_false]
+      rcases hall d hd with h | h
+      · exact absurd h hd1
+      · omega
+
+/-! the behaviours the property singles out, on concrete arguments (also non-vacuity of `ValidReshape`) -/
+example : shapeReshape [2,3] [3,-1] = some [3,2] ∧ ValidReshape [2,3] [3,-1] := by decide
+example : shapeReshape [2,3] [0,-1] = none ∧ shapeReshape [2,3] [-2,-3] = none ∧ shapeReshape [2,3] [-1,-1] = none ∧
+    shapeReshape [2,3] [4,-1] = none ∧ shapeReshape [2,3] [5] = none := by decide
+
 end NmVerif.Props.C15
+
